@@ -23,7 +23,7 @@ RULE = ("a scenario is one complete run of run_split: an abstract input (read se
         "final newline); the counterexamples TLC finds for the implementation-shaped design alternatives.  Non-trivial = at "
         "least 2 input reads whose targets differ (e.g. one goes to H1 and another is untagged or discarded)")
 ASSUMPTIONS = [
-    "read names in the haplotype list are distinct (the list is a function); duplicate list names are outside the statement",
+    "the haplotype list is a function of the read name: a name may be listed on several lines (one per alignment) with the same entry; contradictory lines are outside the statement",
     "the size of a phase set for --only-largest-block is the number of tagged lines of the LIST with that (chromosome, phase set), "
     "whether or not the reads occur in the input; ties are resolved by an arbitrary largest block (TLC searches for a witness selection)",
     "content identity of a record = the FASTQ record text (4 lines) resp. pysam's SAM rendering of the BAM record; BAM headers are not compared",
@@ -135,6 +135,10 @@ def _rand(rng):
         else:
             c, s = rng.choice(blocks)
             lines.append([n, rng.randint(1, p), s, c])
+    if lines and rng.random() < 0.25:
+        # a haplotag list has one line per ALIGNMENT: mates and supplementary alignments repeat a name (same entry)
+        for l_ in rng.sample(lines, rng.randint(1, min(3, len(lines)))):
+            lines.insert(rng.randint(0, len(lines)), list(l_))
     disc = rng.random() < 0.35 and bool(lines)
     largest = rng.random() < 0.4
     dasho = p > 2 or rng.random() < 0.4
